@@ -2,6 +2,7 @@
    Only statements here; every proof is `exact <lemma of Proofs/C44_Paginate.v>`. *)
 From Coq Require Import List ZArith.
 Require Import MTX.Lib.IntWrap MTX.Model.C44_Paginate MTX.Proofs.C44_Paginate.
+Require Import MTX.Model.C44_Callers MTX.Proofs.C44_Callers.
 Import ListNotations.
 Local Open Scope Z_scope.
 
@@ -47,6 +48,80 @@ Print Assumptions C44_no_overflow.
 Theorem C44_no_panic : forall len i p, 0 <= len < 2 ^ 62 -> paginate len i p <> Panics.
 Proof. exact paginate_no_panic. Qed.
 Print Assumptions C44_no_panic.
+
+(* ---- the callers: a list endpoint `items := source(); paginate; answer {itemCount, pageCount, page}` ----
+   (Model/C44_Callers.v; every handler of internal/api that calls paginate has one of the two shapes, tied by the
+   driver's go/ast inventory and by driving each endpoint through the real router)
+
+   For every source list (any element type, length < 2^62) and all parameter strings standing for itemsPerPage = ipp
+   and page = page (defaults included): the answer carries the length of the whole source, the page count, and exactly
+   the consecutive slice [page*ipp, page*ipp+ipp) of the source. *)
+Theorem C44_endpoint_page : forall (A : Type) (src : list A) (i p : list Z) (ipp page : Z),
+  Z.of_nat (length src) < 2 ^ 62 -> ipp_value i ipp -> page_value p page ->
+  list_response src i p =
+    ROk (Z.of_nat (length src)) (page_count (Z.of_nat (length src)) ipp) (page_items src ipp page)
+  /\ items_of (list_response src i p) = firstn (Z.to_nat ipp) (skipn (Z.to_nat (page * ipp)) src).
+Proof. intros A src i p ipp page Hl Hi Hp. split; [exact (list_response_valid src i p ipp page Hl Hi Hp) | exact (list_response_slice src i p ipp page Hl Hi Hp)]. Qed.
+Print Assumptions C44_endpoint_page.
+
+(* the answers to pages 0..pageCount-1 (whatever strings spell the page numbers) concatenate to the source *)
+Theorem C44_endpoint_concat : forall (A : Type) (src : list A) (i : list Z) (ps : nat -> list Z) (ipp : Z),
+  Z.of_nat (length src) < 2 ^ 62 -> ipp_value i ipp -> (forall k, page_value (ps k) (Z.of_nat k)) ->
+  concat (map (fun k => items_of (list_response src i (ps k)))
+              (seq 0 (Z.to_nat (page_count (Z.of_nat (length src)) ipp)))) = src.
+Proof. exact @list_response_concat. Qed.
+Print Assumptions C44_endpoint_concat.
+
+Theorem C44_endpoint_page_size : forall (A : Type) (src : list A) (i p : list Z) (ipp page : Z),
+  Z.of_nat (length src) < 2 ^ 62 -> ipp_value i ipp -> page_value p page ->
+  Z.of_nat (length (items_of (list_response src i p))) <= ipp.
+Proof. exact @list_response_size. Qed.
+Print Assumptions C44_endpoint_page_size.
+
+Theorem C44_endpoint_past_end_empty : forall (A : Type) (src : list A) (i p : list Z) (ipp page : Z),
+  Z.of_nat (length src) < 2 ^ 62 -> ipp_value i ipp -> page_value p page ->
+  page_count (Z.of_nat (length src)) ipp <= page -> items_of (list_response src i p) = [].
+Proof. exact @list_response_past_end. Qed.
+Print Assumptions C44_endpoint_past_end_empty.
+
+(* 400 exactly for invalid parameters; no request makes a handler panic *)
+Theorem C44_endpoint_invalid_rejected : forall (A : Type) (src : list A) (i p : list Z),
+  Z.of_nat (length src) < 2 ^ 62 -> (list_response src i p = RBad <-> ~ (valid_ipp i /\ valid_page p)).
+Proof. exact @list_response_rejects_iff. Qed.
+Print Assumptions C44_endpoint_invalid_rejected.
+
+Theorem C44_endpoint_no_panic : forall (A : Type) (src : list A) (i p : list Z),
+  Z.of_nat (length src) < 2 ^ 62 -> list_response src i p <> RPanic.
+Proof. exact @list_response_no_panic. Qed.
+Print Assumptions C44_endpoint_no_panic.
+
+(* the keys shape (onRecordingsList: paginate the path names, allocate Items with the page's length, fill by index)
+   answers exactly like an endpoint whose source is the list of built items: all theorems above apply to it *)
+Theorem C44_endpoint_keys : forall (K A : Type) (zero : A) (f : K -> A) (keys : list K) (i p : list Z),
+  list_response_alloc zero f false keys i p = list_response (map f keys) i p.
+Proof. intros. rewrite list_response_alloc_eq. apply list_response_keys_eq. Qed.
+Print Assumptions C44_endpoint_keys.
+
+(* allocating Items BEFORE paginate (length of the whole key list) violates the page size bound *)
+Theorem C44_endpoint_alloc_before_refuted :
+  exists (keys : list Z) i p ipp page, ipp_value i ipp /\ page_value p page /\
+    ~ Z.of_nat (length (items_of (list_response_alloc (-1) (fun k => k) true keys i p))) <= ipp.
+Proof. exact alloc_before_refuted. Qed.
+Print Assumptions C44_endpoint_alloc_before_refuted.
+
+(* what the driver compares against: every driven endpoint (both shapes) is list_response on [0..n) *)
+Theorem C44_endpoint_driven : forall ep n i p r,
+  endpoint_response ep n i p = Some r -> r = list_response (iota 0 (Z.to_nat n)) i p.
+Proof. exact endpoint_response_list. Qed.
+Print Assumptions C44_endpoint_driven.
+
+(* non-vacuity: 7 recordings, itemsPerPage=3, pages "0".."3"; default parameters; rejected strings *)
+Example C44_endpoint_example :
+  map (fun p => list_response_alloc (-1) (fun k => k) false [10;11;12;13;14;15;16] [51] [p]) [48;49;50;51] =
+    [ROk 7 3 [10;11;12]; ROk 7 3 [13;14;15]; ROk 7 3 [16]; ROk 7 3 []]
+  /\ list_response [1;2;3] [] [] = ROk 3 1 [1;2;3] /\ list_response [1;2;3] [48] [] = RBad
+  /\ ipp_value [51] 3 /\ page_value [50] 2 /\ ipp_value [] 100 /\ length endpoints = 15%nat.
+Proof. vm_compute. repeat split; try (right; split; [reflexivity | discriminate]); try (right; reflexivity); left; split; reflexivity. Qed.
 
 (* non-vacuity: a concrete list with a partial last page *)
 Example C44_example :
